@@ -21,13 +21,18 @@ def subset_nodes(r, nmax, budget):
     r.shuffle(combos)
     combos = (combos * (budget // max(1, len(combos)) + 1))[:budget]
     for (n, S) in combos:
-        cls = r.choice(CLASSES)
+        cls = r.choice(CLASSES + ['EStopIter'])
         E = r.choice(CATCH)
+        stopiter = cls == 'EStopIter'
+        if stopiter:
+            # StopIteration raised by a user function (the `next(x for x in ex if cond)` idiom): only under a catch that selects it
+            # (propagating through generator frames it would be rewritten by PEP 479, which is Python's business, not the library's)
+            E = r.choice([('EStopIter',), ('EStopIter', 'EValue'), ('EException',)])
         keyed = r.random() < 0.5
         vals = list(range(10, 10 + n))
         src = Node('dict', (tuple(zip(gen_a.KEYS[:n], vals)), 'pickle')) if keyed else Node('list', (tuple(vals), 'pickle'))
         raiser = ('FRaiseIf', ('PIn', tuple(10 + i for i in S)), cls, next(tag), ('FAdd', 0))
-        if r.random() < 0.3 and S:       # a second, different failure further down
+        if r.random() < 0.3 and S and not stopiter:       # a second, different failure further down
             other = ('FRaiseIf', ('PIn', (10 + S[0],)), r.choice(CLASSES), next(tag), ('FId',))
         else:
             other = None
@@ -49,9 +54,14 @@ def subset_nodes(r, nmax, budget):
             d = Node('concat', (), [d, o] if r.random() < 0.6 else [o, d])
             if r.random() < 0.3:
                 d = Node('map', (('FAdd', 1),), [d])
-        elif w < 0.36 and n:
+        elif w < 0.36 and n and not stopiter:
             d = Node('batch', (r.randint(1, 3), False), [d])
-        kind = r.choice(['catch', 'catch', 'prefetch1', 'prefetchN', 'catch_items'])
+        elif w < 0.5:
+            # zipped with a healthy dataset of the same length, on either side
+            vals2 = list(range(50, 50 + n))
+            o = Node('dict', (tuple(zip(gen_a.KEYS[:n], vals2)), 'pickle')) if keyed else Node('list', (tuple(vals2), 'pickle'))
+            d = Node('zip', (), [d, o] if r.random() < 0.6 else [o, d])
+        kind = r.choice(['catch', 'catch', 'prefetch1', 'prefetchN', 'catch_items']) if not stopiter else r.choice(['catch', 'catch_items'])
         if kind == 'catch':
             d = Node('catch', (E,), [d])
         elif kind == 'prefetch1':
